@@ -202,6 +202,14 @@ def handle (op : String) : Option Handler :=
       let lens ← natListOf j "strlens"
       let a := headerArea lens (← natOf j "n_entries") (← natOf j "passes")
       pure (Json.mkObj [("sections", a.sections), ("directory", a.directory), ("first_blob", a.firstBlob)])
+  | "c06.dirindex" => some fun j => do
+      -- the directory index section of a real file: dirmap_offset as stored in the section,
+      -- number of local entries, start of the section; the width is the generated one
+      let packed := hashPackedSize (← natOf j "dirmap") (← natOf j "n_local")
+      let bits := GIVerif.Gen.dirIndexSizeBits
+      pure (Json.mkObj [("bits", bits), ("packed", packed), ("required", dirIndexRequired bits packed),
+                        ("pack_ok", Json.bool (dirIndexPackOk bits packed)),
+                        ("end", dirIndexEnd bits (← natOf j "offset2") packed)])
   | _ => none
 
 end Driver.C06
